@@ -125,9 +125,13 @@ pub fn run_limited(cmd: &mut Command, limit: Duration) -> RunResult {
         match child.try_wait() {
             Ok(Some(s)) => break Some(s),
             Ok(None) => {
+                let over = crate::util::overload();
                 if t0.elapsed() > limit
-                    && (t0.elapsed() > limit * 8
-                        || crate::util::proc_tree_cpu_ms(child.id()).map_or(true, |c| c as u128 >= limit.as_millis() || (c as u128) * 4 < t0.elapsed().as_millis() / 8))
+                    && (t0.elapsed() > limit * 8 * over.min(4) as u32
+                        || crate::util::proc_tree_cpu_ms(child.id()).map_or(true, |c| {
+                            c as u128 >= limit.as_millis()
+                                || (t0.elapsed() > limit * 2 && (c as u128) * 32 * (over as u128) < t0.elapsed().as_millis() && crate::util::proc_state(child.id()) != 'R')
+                        }))
                 {
                     // over the limit in CPU time, or idle (less than 1/32 of the wall-clock time spent computing): hung
                     timed_out = true;
